@@ -76,3 +76,16 @@ void h_raw_wr(void) {
     if (n > 9 && r->backend.fend == r->offset) { VG_REACH(raw_wr_append); }
     if (n == 0) { VG_REACH(raw_wr_no_payload); }
 }
+
+void h_raw_chunk_next(void) { struct jls_raw_s * r = vg_mk_raw(); int32_t rc = jls_raw_chunk_next(r); VG_REACH(chunk_next_returns); if (rc == 0) { VG_REACH(chunk_next_ok); } else { VG_REACH(chunk_next_end); } }
+void h_raw_chunk_prev(void) { struct jls_raw_s * r = vg_mk_raw(); int32_t rc = jls_raw_chunk_prev(r); VG_REACH(chunk_prev_returns); if (rc == 0) { VG_REACH(chunk_prev_ok); } }
+void h_raw_item_next(void) { struct jls_raw_s * r = vg_mk_raw(); int32_t rc = jls_raw_item_next(r); VG_REACH(item_next_returns); if (rc == 0) { VG_REACH(item_next_ok); } }
+void h_raw_item_prev(void) { struct jls_raw_s * r = vg_mk_raw(); int32_t rc = jls_raw_item_prev(r); VG_REACH(item_prev_returns); if (rc == 0) { VG_REACH(item_prev_ok); } }
+void h_raw_wr_filehdr(void) { struct jls_raw_s * r = vg_mk_raw(); int32_t rc = wr_file_header(r); VG_REACH(wr_filehdr_returns); }
+void h_raw_rd_filehdr(void) {
+    struct jls_raw_s * r = vg_mk_raw();
+    struct jls_file_header_s * h = malloc(sizeof(*h)); __CPROVER_assume(h != NULL);
+    int32_t rc = rd_file_header(r, h);
+    VG_REACH(rd_filehdr_returns);
+    if (rc == 0) { VG_REACH(rd_filehdr_accepted); } else { VG_REACH(rd_filehdr_rejected); }
+}
